@@ -19,10 +19,52 @@ RULE = ('exhaustive: all assignment vectors of length <= L over the id alphabet 
         'cells). Sequences: the grouping returned by _spikes_per_cluster is handed to the library\'s own consumers (SpikeSelector '
         'through spc.get with counts below / above the group sizes, with and without chunk / subset restriction; '
         '_flatten_per_cluster), then READ AGAIN and recomputed from the same arrays: it must still be the grouping of the '
-        'unchanged assignment vector. non-trivial = at least two spikes and two distinct ids')
+        'unchanged assignment vector. Ids over the FULL range of every dtype for the helpers without a lookup table '
+        '(_spikes_per_cluster, _spikes_in_clusters, _flatten_per_cluster): exhaustive short vectors over alphabets spanning the '
+        'dtype (0, middle, sign-bit neighbours, maximum; uint32 >= 2^31, int64 >= 2^32, gaps >= 2^31 / multiples of 2^32), random '
+        'ids anywhere in the dtype; supplied spike ids of dtype int32/int64/uint16/uint32 up to their maximum; requested clusters '
+        'given as list / tuple / ndarray of every dtype holding them (_unique, _index_of, grouped_mean allocate max(id)+1 cells and '
+        'keep ids <= 2*10^7). non-trivial = at least two spikes and two distinct ids')
 ASSUMPTIONS = ['grouped_mean: integer-valued data so that the sum is exact; the single float division '
                'is compared with the correctly rounded exact quotient (fractions.Fraction)']
 ALPHA = [0, 2, 3, 7]
+DMAX = {'int32': 2 ** 31 - 1, 'int64': 2 ** 63 - 1, 'uint16': 2 ** 16 - 1, 'uint32': 2 ** 32 - 1}
+
+
+def wide_ids(dt):
+    """Landmarks over the FULL range of an assignment dtype: the powers of two where a narrower (or signed) type ends,
+    their neighbours, the middle of the range and the dtype's maximum."""
+    mx = DMAX[dt]
+    pts = {0, 1, 5, 2 ** 15 - 1, 2 ** 15, 2 ** 16 - 1, 2 ** 16, 10 ** 6, 2 ** 31 - 1, 2 ** 31, 2 ** 31 + 5, 2 ** 32 - 1, 2 ** 32,
+           2 ** 32 + 2 ** 31, 2 ** 62, mx // 2, mx // 2 + 1, mx // 2 + 2, mx - 1, mx}
+    return sorted(x for x in pts if x <= mx)
+
+
+def wide_alphabets(dt):
+    """Small id alphabets spanning the dtype: gaps of half the range and more (where an unsigned first difference taken
+    in a narrower or signed type wraps), neighbours across the sign bit, ids above 2^31 / 2^32 where the dtype has them."""
+    mx = DMAX[dt]
+    c = [v for v in (5, 2 ** 31 + 5, 2 ** 32 + 2 ** 31, 2 ** 62, 2 ** 15, 2 ** 16 - 1) if v <= mx][:4]
+    return [[0, mx // 2 + 1, mx - 1, mx], [1, mx // 2, mx // 2 + 1, mx // 2 + 2], sorted(c)]
+
+
+def container_kinds(vals):
+    """The forms in which a caller can hand over a list of integers: list, tuple, ndarray of every quantified dtype that
+    holds them."""
+    kinds = ['list', 'tuple']
+    for dt, (w, signed) in DT.items():
+        lo = -(2 ** (w - 1)) if signed else 0
+        if all(lo <= v <= DMAX[dt] for v in vals):
+            kinds.append('array:' + dt)
+    return kinds
+
+
+def as_container(vals, kind):
+    if kind == 'tuple':
+        return tuple(vals)
+    if kind.startswith('array:'):
+        return np.array(vals, dtype=kind[6:])
+    return list(vals)
 
 
 def impl(case):
@@ -30,7 +72,7 @@ def impl(case):
     op = case['op']
     if op == 'spc':
         sc = np.array(case['sc'], dtype=case['dtype'])
-        ids = np.array(case['ids'], dtype=np.int64) if case.get('ids') is not None else None
+        ids = np.array(case['ids'], dtype=case.get('idtype', 'int64')) if case.get('ids') is not None else None
         d = A._spikes_per_cluster(sc, ids)
         first = [[int(k), [int(x) for x in v]] for k, v in d.items()]
         if not case.get('then'):
@@ -54,7 +96,8 @@ def impl(case):
         again = [[int(k), [int(x) for x in v]] for k, v in A._spikes_per_cluster(sc, ids).items()]
         return dict(first=first, after=after, again=again)
     if op == 'sic':
-        return [int(x) for x in A._spikes_in_clusters(np.array(case['sc'], dtype=case['dtype']), case['cl'])]
+        return [int(x) for x in A._spikes_in_clusters(np.array(case['sc'], dtype=case['dtype']),
+                                                      as_container(case['cl'], case.get('clkind', 'list')))]
     if op == 'unique':
         return [int(x) for x in A._unique(np.array(case['l'], dtype=case['dtype']))]
     if op == 'index_of':
@@ -131,8 +174,8 @@ def model_query(case, impl_res):
     if case['op'] == 'spc':
         q['w'], q['signed'] = DT[case['dtype']]
     q.pop('pre_sc', None)
-    q.pop('then', None)
-    q.pop('rs', None)
+    for key in ('then', 'rs', 'idtype', 'clkind'):
+        q.pop(key, None)
     if case['op'] == 'sic':
         # requested ids below zero are absent from every (non-negative) assignment vector: they select nothing
         q['cl'] = [c for c in case['cl'] if c >= 0]
@@ -247,6 +290,18 @@ def tally(rep, case, impl_res, ans):
             rep.count('gmean: assignment array edited in place after an earlier call')
     if case['op'] == 'sic' and any(c < 0 for c in case['cl']):
         rep.count('sic: negative (absent) requested id')
+    if case['op'] == 'sic':
+        rep.count('sic: requested clusters given as ' + case.get('clkind', 'list'))
+    if case['op'] in ('spc', 'sic') and case['sc']:
+        mx, d = max(case['sc']), sorted(set(case['sc']))
+        gap = max([b - a for a, b in zip(d, d[1:])] or [0])
+        top = DMAX[case['dtype']]
+        rep.count('%s: largest id %s' % (case['op'], 'the dtype maximum' if mx == top else '>= 2^32' if mx >= 2 ** 32 else
+                                        '>= 2^31' if mx >= 2 ** 31 else '>= 2^15' if mx >= 2 ** 15 else '< 2^15'))
+        if gap >= 2 ** 15:
+            rep.count('%s: %s ids with a gap %s between neighbouring distinct ids' % (
+                case['op'], case['dtype'], '>= 2^63' if gap >= 2 ** 63 else '>= 2^32' if gap >= 2 ** 32 else
+                '>= 2^31' if gap >= 2 ** 31 else '>= 2^15'))
     if case['op'] == 'index_of':
         lk = case['lookup']
         mx = max(lk) if lk else 0
@@ -274,6 +329,8 @@ def tally(rep, case, impl_res, ans):
         rep.count('len:%s' % (len(case['sc']) if len(case['sc']) < 8 else '8+'))
         ids = case.get('ids')
         rep.count('ids:%s' % ('none' if ids is None else 'given, increasing' if ids == sorted(set(ids)) else 'given, unsorted or repeated'))
+        if ids is not None:
+            rep.count('ids_dtype:%s%s' % (case.get('idtype', 'int64'), ' (ids >= 2^31)' if max(ids) >= 2 ** 31 else ''))
 
 
 def classify(case, impl_res, ans, why):
@@ -345,6 +402,8 @@ def gen(tier, rng):
                 elif k % 3 == 1 and n >= 2:
                     # supplied ids in arbitrary order, with repetitions: never sorted by the helper
                     c['ids'] = [(7 * i + k) % 11 for i in range(n)]
+                if 'ids' in c:
+                    c['idtype'] = ['int64', 'int32', 'uint32', 'uint16'][(k // 3) % 4]
                 if n >= 2 and (k // 4) % 2 == 0:
                     # ... and the grouping is read again after the library's consumers used it
                     c['then'] = consumer_steps(k // 8, set(sc), c.get('ids') or list(range(n)))
@@ -352,10 +411,33 @@ def gen(tier, rng):
                 yield c
             if n <= 5:
                 cl = [[7], [3, 0], [5, 2, 7], [9], [2, 2, 0]][k % 5]
-                yield dict(p=PID, op='sic', sc=list(sc), cl=cl, dtype=dts[k % 4])
+                kinds = container_kinds(cl)
+                yield dict(p=PID, op='sic', sc=list(sc), cl=cl, dtype=dts[k % 4], clkind=kinds[(k // 5) % len(kinds)])
                 yield dict(p=PID, op='unique', l=list(sc), dtype=dts[k % 4])
                 yield dict(p=PID, op='gmean', sc=list(sc), arr=[((i * 5 + k) % 13) - 4 for i in range(n)],
                            dtype=dts[k % 4])
+    # ids over the FULL range of every dtype (the first differences of the sorted ids are taken in the dtype): every
+    # vector of length <= 3, every third of length 4, over alphabets spanning the dtype; the table helpers (_unique,
+    # _index_of, grouped_mean allocate max(id)+1 cells) stay on small ids
+    k = 0
+    for dt in dts:
+        for alpha in wide_alphabets(dt):
+            for n in range(1, 5):
+                for sc in itertools.product(alpha, repeat=n):
+                    k += 1
+                    if n == 4 and k % 3:
+                        continue
+                    c = dict(p=PID, op='spc', sc=list(sc), dtype=dt)
+                    if k % 4 == 1:
+                        idt = dts[(k // 4) % 4]
+                        c['ids'], c['idtype'] = [DMAX[idt] - 3 * (n - i) - (k % 2) * (i % 2) * 7 for i in range(n)], idt
+                    yield c
+                    if n <= 3:
+                        cl = [[alpha[-1]], [alpha[1], alpha[0]], [min(alpha[-1] + 1, DMAX['int64']), alpha[-2], 7],
+                              [alpha[-1], alpha[-1], 2 ** 32 + alpha[0]], [DMAX['int64'], -1]][k % 5]
+                        kinds = container_kinds(cl)
+                        yield dict(p=PID, op='sic', sc=list(sc), cl=cl, dtype=dt, clkind=kinds[(k // 5) % len(kinds)])
+            yield dict(p=PID, op='flatten', d=[[alpha[-1], alpha[0]], [alpha[1]], list(alpha[::-1])], dtype=dt)
     yield dict(p=PID, op='sic', sc=[0], cl=[-1], dtype='int64')
     yield dict(p=PID, op='sic', sc=[0, 3, 3], cl=[-1, 3, -4], dtype='int32')
     yield dict(p=PID, op='sic', sc=[], cl=[1], dtype='int64')
@@ -412,6 +494,13 @@ def gen(tier, rng):
         dt = rng.pick(dts if R <= 60000 else [d for d in dts if d != 'uint16'])
         if R > 60:
             n = rng.pick([n, rng.randrange(1, 8)])
+        if t == 2 and R >= 1000000:
+            n = min(n, 80)      # the list model walks the 10^6-cell table once per spike (0.6 s per case at 400 spikes)
+        full = t in (0, 1) and rng.random() < .3
+        if full:
+            # ids anywhere in the range of the dtype: landmarks and uniformly drawn ones
+            dt = rng.pick(dts)
+            ids = list({rng.pick([rng.pick(wide_ids(dt)), rng.randrange(0, DMAX[dt] + 1)]) for _ in range(rng.randrange(1, 9))})
         sc = [rng.pick(ids) for _ in range(n)]
         if t == 0:
             c = dict(p=PID, op='spc', sc=sc, dtype=dt)
@@ -419,7 +508,11 @@ def gen(tier, rng):
                 c['ids'] = sorted(rng.sample(range(5000), n))
                 if rng.random() < .4:
                     rng.shuffle(c['ids'])
-            if rng.random() < .5:
+                c['idtype'] = rng.pick(dts)
+                if full and rng.random() < .5:
+                    # spike ids near the top of their dtype (the grouping is not read by a selector below)
+                    c['ids'] = [DMAX[c['idtype']] - 5000 + x for x in c['ids']]
+            if rng.random() < .5 and max(c.get('ids') or [0]) < 10 ** 4:
                 c['then'] = []
                 for _ in range(rng.randrange(1, 4)):
                     if rng.random() < .2:
@@ -439,7 +532,10 @@ def gen(tier, rng):
             if rng.random() < .3:
                 cl = cl + [rng.pick([-1, -2, -R, -7])]       # partly absent requests: ids nobody carries, also negative ones
                 rng.shuffle(cl)
-            yield dict(p=PID, op='sic', sc=sc, cl=cl, dtype=dt)
+            if full:
+                cl = cl + [rng.pick(wide_ids(rng.pick(dts))) for _ in range(rng.randrange(0, 4))]
+                rng.shuffle(cl)
+            yield dict(p=PID, op='sic', sc=sc, cl=cl, dtype=dt, clkind=rng.pick(container_kinds(cl)))
         elif t == 2:
             adt = rng.pick(['float64', 'float64', 'int64', 'int8', 'int16', 'uint8', 'bool', 'list', 'float32'])
             lo, hi = {'uint8': (0, 256), 'bool': (0, 2), 'int8': (-128, 128)}.get(adt, (-50, 50))
